@@ -248,6 +248,7 @@ func (r *Run) Finish() {
 	}
 	nv := len(r.violations)
 	r.mu.Unlock()
+	r.genericReplay()
 	fmt.Printf("%s %s: %v wall=%.1fs violations=%d known=%d\n", r.ID, r.Tier, summarize(cov), time.Since(r.start).Seconds(), nv, len(r.knownSeen))
 	if nv > 0 {
 		os.Exit(1)
@@ -307,22 +308,70 @@ func RacePass() bool { return os.Getenv("VERIF_RACE_PASS") == "1" }
 // ReplayPayload returns the "replay" object of the artefact named by `--replay <file>` on the
 // command line (nil if the check was not started in replay mode).
 func ReplayPayload() map[string]any {
+	f := replayFile()
+	if f == "" {
+		return nil
+	}
+	replayConsumed = true
+	b, err := os.ReadFile(f)
+	if err != nil {
+		Infra("replay file: %v", err)
+	}
+	var doc struct {
+		Replay map[string]any `json:"replay"`
+	}
+	if err := json.Unmarshal(b, &doc); err != nil || doc.Replay == nil {
+		Infra("replay file %s has no replay object", f)
+	}
+	return doc.Replay
+}
+
+// replayConsumed is set when the harness implements targeted replay itself. Harnesses that do
+// not are replayed generically by Finish: the complete check is deterministic and exhaustive
+// within its bounds, so re-running it and looking for the recorded violation key replays the case.
+var replayConsumed bool
+
+func replayFile() string {
 	for i, a := range os.Args {
 		if a == "--replay" && i+1 < len(os.Args) {
-			b, err := os.ReadFile(os.Args[i+1])
-			if err != nil {
-				Infra("replay file: %v", err)
-			}
-			var doc struct {
-				Replay map[string]any `json:"replay"`
-			}
-			if err := json.Unmarshal(b, &doc); err != nil || doc.Replay == nil {
-				Infra("replay file %s has no replay object", os.Args[i+1])
-			}
-			return doc.Replay
+			return os.Args[i+1]
 		}
 	}
-	return nil
+	return os.Getenv("VERIF_REPLAY")
+}
+
+// genericReplay is called by Finish when a replay artefact was given and the harness did not
+// consume it: exit 1 iff the recorded key was found again by the full run.
+func (r *Run) genericReplay() {
+	f := replayFile()
+	if f == "" || replayConsumed {
+		return
+	}
+	b, err := os.ReadFile(f)
+	if err != nil {
+		Infra("replay file: %v", err)
+	}
+	var doc struct {
+		Key  string `json:"key"`
+		What string `json:"what"`
+	}
+	if err := json.Unmarshal(b, &doc); err != nil || doc.Key == "" {
+		Infra("replay file %s has no violation key", f)
+	}
+	found := r.knownSeen[doc.Key] > 0
+	for _, k := range r.violOrder {
+		if k == doc.Key {
+			found = true
+		}
+	}
+	fmt.Printf("replay of %s by re-running the complete %s check (deterministic, exhaustive within its bounds): key %s ", filepath.Base(f), r.Tier, doc.Key)
+	if found {
+		fmt.Println("REPRODUCED")
+		fmt.Printf("  recorded: %s\n", doc.What)
+		os.Exit(1)
+	}
+	fmt.Println("not reproduced on this tree")
+	os.Exit(0)
 }
 
 // ReplayIndex returns replay["index"] of the artefact given with --replay.
